@@ -130,6 +130,10 @@ def strtod (s : List Char) : Res :=
   | .noConv => .noConv
   | .unsupported => .unsupported
 
+/-- how far the 53-bit significand of a normal binary64 with biased exponent `e` has to be
+shifted to become a binary32 significand (24 bits, or fewer in the binary32 subnormal range). -/
+def f32Shift (e : Nat) : Nat := if e + 29 ≥ 1075 - 149 then 29 else 1075 - 149 - e
+
 /-- `(float) d` for a finite binary64 pattern: round to nearest even, overflow to ±inf. -/
 def toFloat32 (b : Nat) : Nat :=
   let sign := if 2 ^ 63 ≤ b then 2 ^ 31 else 0
@@ -139,10 +143,8 @@ def toFloat32 (b : Nat) : Nat :=
   else
     let q := 2 ^ 52 + m                      -- value = q * 2^(e - 1075)
     -- float: value = q' * 2^E' with E' = e - 1075 + shift ≥ -149
-    let shift := if e + 29 ≥ 1075 - 149 then 29 else 1075 - 149 - e
-    let q0 := q / 2 ^ shift
-    let r := q % 2 ^ shift
-    let q1 := if 2 * r > 2 ^ shift ∨ (2 * r = 2 ^ shift ∧ q0 % 2 = 1) then q0 + 1 else q0
+    let shift := f32Shift e
+    let q1 := roundHalfEven q (2 ^ shift)
     let (q2, sh2) := if q1 = 2 ^ 24 then (2 ^ 23, shift + 1) else (q1, shift)
     if q2 < 2 ^ 23 then sign + q2
     else
